@@ -332,7 +332,9 @@ class USBInTransferManager(Elaboratable):
                     m.next = "WAIT_FOR_DATA"
 
                 # If the host does ACK...
-                with m.Elif(self.handshakes_in.ack):
+                # (Handshake detection is shared by the whole device -- and sees handshakes meant for other
+                # devices on the bus -- so only count an ACK that follows an IN token directed at us.)
+                with m.Elif(self.handshakes_in.ack & self.active & self.tokenizer.is_in):
                     # ... clear the data we've sent from our buffer.
                     m.d.usb += read_fill_count.eq(0)
 
